@@ -137,8 +137,8 @@ def check(ctx):
         if ep.endswith("_pmf_predict") and vs:
             _r134_predict(ctx, At, rr, vs[0])
     ctx.floor("R13.3", "thresholder entry points using the validator", n, 2)
-    _r134_fit(ctx)
-    _r135(ctx)
+    ctx.guard(_r134_fit, ctx)
+    ctx.guard(_r135, ctx)
 
 
 def _r134_predict(ctx, A, r, vcall):
